@@ -7,6 +7,7 @@ type-directed values for every covered constructor and on damaged inputs; (c) or
 independent TL encoder, round trip, consumed == length."""
 import copy
 import itertools
+import signal
 import time
 import zlib
 
@@ -65,11 +66,33 @@ def _call(f, *a, **k):
         return ('err', type(e).__name__ + ': ' + str(e)[:80])
 
 
-def lib_deser(W, data, auto):
+class Slow(BaseException):
+    pass
+
+
+def _alarm(signum, frame):
+    raise Slow()
+
+
+CAP = 4.0       # wall-clock cap per library call on damaged / adversarial input (guards the harness itself)
+
+
+def lib_deser(W, data, auto, cap=None):
+    """-> ('ok', (value, consumed)) | ('err', text) | ('slow', seconds)"""
     W.lib._auto_deserialize = auto
+    old = None
+    if cap:
+        old = signal.signal(signal.SIGALRM, _alarm)
+        signal.setitimer(signal.ITIMER_REAL, cap)
+    t0 = time.time()
     try:
         return _call(W.lib.deserialize, data)
+    except Slow:
+        return ('slow', time.time() - t0)
     finally:
+        if cap:
+            signal.setitimer(signal.ITIMER_REAL, 0)
+            signal.signal(signal.SIGALRM, old)
         W.lib._auto_deserialize = True
 
 
@@ -169,6 +192,8 @@ def damaged(ctx, W, B, ser, c):
     """model vs library on a damaged serialisation (no property claim: any agreement is fine)."""
     rng = ctx.rng
     k = rng.randrange(4)
+    if ctx.stats.get('slow_calls', 0) >= 3:
+        return
     d = bytearray(ser)
     if k == 0 and len(d) > 4:
         d = d[:rng.randrange(4, len(d))]
@@ -184,11 +209,12 @@ def damaged(ctx, W, B, ser, c):
     if len(d) > 100_000:
         return
     for auto in (False, True):
-        t0 = time.time()
-        st, r = lib_deser(W, d, auto)
-        dt = time.time() - t0
-        if dt > 5:
-            ctx.fail(f'slow:{c["name"]}', f'deserialize took {dt:.1f}s on {len(d)} bytes', {'data': d.hex(), 'auto': auto}, f'{dt:.1f}s', '< 5 s')
+        st, r = lib_deser(W, d, auto, cap=CAP)
+        if st == 'slow':
+            ctx.count('slow_calls')
+            ctx.fail(f'slow:{c["name"]}', f'deserialize did not finish within {CAP:.0f}s on {len(d)} bytes (work not bounded by the input)',
+                     {'data': d.hex(), 'auto': auto}, f'> {CAP:.0f}s', 'fast')
+            return
         ctx.count('damaged')
         if st == 'err' and 'RecursionError' in r:
             continue
@@ -238,7 +264,7 @@ def nested_in_bytes(ctx, W, B):
     hosts = [c for c in W.ctors if W.fully_typed(c) and W.canonical(c) and
              any(a['ety'] == ('base', 'bytes') and not a['vec'] and a['cond'] is None for a in c['args'])]
     inner_pool = [c for c in W.ctors if W.covered(c) and W.canonical(c)]
-    for _ in range(ctx.n(150, 1500)):
+    for _ in range(ctx.n(400, 2000)):
         host = rng.choice(hosts)
         v = V.gen_obj(W, rng, host, 0, {'depth': 1, 'big': False})
         fields = [a for a in host['args'] if a['ety'] == ('base', 'bytes') and not a['vec'] and a['cond'] is None]
@@ -298,6 +324,14 @@ def check_blockid(ctx, W, B):
         st, r = _call(lambda: {a: 1, BlockIdExt(wc, sh, sq ^ 1, rh, fh): 2}[b])
         if st != 'ok' or r != 1:
             ctx.fail('blockid:dictkey', 'BlockIdExt not usable as a dict key', inp, r, 1)
+        # __eq__ / __hash__ consistency: ids differing in one field are different keys; whatever compares equal hashes equally
+        others = [BlockIdExt(wc ^ 1, sh, sq, rh, fh), BlockIdExt(wc, sh ^ 1, sq, rh, fh), BlockIdExt(wc, sh, sq ^ 1, rh, fh),
+                  BlockIdExt(wc, sh, sq, bytes([rh[0] ^ 1]) + rh[1:], fh), BlockIdExt(wc, sh, sq, rh, fh[:-1] + bytes([fh[-1] ^ 1]))]
+        for o in others:
+            st, r = _call(lambda: (a == o, hash(a) == hash(o), {a: 1, o: 2}[a]))
+            if st != 'ok' or r[0] or r[2] != 1:
+                ctx.fail('blockid:eq', 'BlockIdExt values differing in one field compare equal / collide as dict keys', inp, (repr(o), r), 'different keys')
+                break
         s = BlockId(wc, sh, sq)
         st, r = _call(lambda: BlockId.from_dict(s.to_dict()))
         if st != 'ok' or (r.workchain, r.shard, r.seqno) != (wc, sh, sq) or s.to_dict() != {'workchain': wc, 'shard': sh, 'seqno': sq}:
@@ -311,11 +345,13 @@ def check_blockid(ctx, W, B):
     c = W.by_name['tonNode.blockIdExt']
     a = BlockIdExt(-1, None, 5, bytes(range(32)), bytes(range(32, 64)))
     v = dict(a.to_dict(), **{'@type': 'tonNode.blockIdExt'})
-    ser = W.lib.serialize(W.lib.list[c['idx']], v)
-    back = W.lib.deserialize(ser)[0]
-    back.pop('@type')
-    if not (BlockIdExt.from_dict(back) == a):
-        ctx.fail('blockid:tl', 'BlockIdExt -> dict -> TL -> dict -> BlockIdExt changed the id', v, back, a.to_dict())
+    def via_tl():
+        back = W.lib.deserialize(W.lib.serialize(W.lib.list[c['idx']], v))[0]
+        back.pop('@type')
+        return BlockIdExt.from_dict(back)
+    st, r = _call(via_tl)
+    if st != 'ok' or not (r == a):
+        ctx.fail('blockid:tl', 'BlockIdExt -> dict -> TL -> dict -> BlockIdExt changed the id', v, repr(r), a.to_dict())
 
 
 def check_crc(ctx, W):
@@ -371,7 +407,7 @@ def run(ctx):
     check_ids(ctx, W)
     check_lookup(ctx, W)
     check_crc(ctx, W)
-    per = ctx.n(3, 30)
+    per = ctx.n(6, 30)
     opts = {'depth': 3, 'lens': V.LENS_QUICK}
     sers = []
     for c in cov:
@@ -405,11 +441,9 @@ def run(ctx):
     # F16 shape: declared vector length far beyond the input must fail fast
     c = W.by_name['liteServer.signatureSet']
     d = c['id'].to_bytes(4, 'little') + (1).to_bytes(4, 'little') + (2).to_bytes(4, 'little') + (2 ** 22).to_bytes(4, 'little')
-    t0 = time.time()
-    st, r = lib_deser(W, d, True)
-    dt = time.time() - t0
-    if dt > 2:
-        ctx.fail('slow:vector-length', f'vector length 2^22 over 0 remaining bytes took {dt:.1f}s', {'data': d.hex()}, f'{dt:.1f}s', '< 2 s')
+    st, r = lib_deser(W, d, True, cap=CAP)
+    if st == 'slow':
+        ctx.fail('slow:vector-length', f'vector length 2^22 over 0 remaining bytes did not finish within {CAP:.0f}s', {'data': d.hex()}, f'> {CAP:.0f}s', 'fast')
     B.add(f'tldeser {d.hex()} 1', lambda out, line: None if (out == 'err') == (st == 'err') else ctx.corr_broken(f'vector bound: model {out} library {st}'))
     B.flush()
 
